@@ -9,6 +9,7 @@ texts={
 "C13":("proof","every index, slice, nil dereference, type assertion and callee precondition of the query handler is an obligation; reply shape (Id, QR) at every reply site; DS-at-root precondition"),
 "C15":("proof","chunk codec and multi-value operations of dnsdata/rdb under functional contracts (delValue removes exactly the first equal chunk or fails without effect; Add/Del issue one read and at most one write; batches copy their arguments)"),
 "C16":("proof","record layout and table bookkeeping of writer.Put; probe discipline of Cdb.find (EOF only at an empty cell or after all cells; hit reports matching hash and key length)"),
+"C14":("other","lock-discipline proof for the named critical sections only (ghost lock state: no Lock while held, every path releases what it acquired, the named read-modify-write operations run under the lock); goroutine schedules, deadlock and crash freedom are NOT claimed"),
 "C19":("proof","one tick of the sliding-window cleaner drops exactly the expired prefix and keeps live samples unchanged; writeAndLog logs and counts exactly what was written, once, after the write; DNS_queries +1 on every handler path"),
 }
 checks=[]
@@ -16,6 +17,8 @@ served=[]
 for f in sorted(glob.glob('/verif/props/C*.json')):
     c=json.load(open(f)); pid=c['id']
     cat,txt=texts.get(pid,("proof","contract-based deductive verification of the functions listed in props/%s.json"%pid))
+    if c.get('level'):
+        cat=c['level']
     if not c.get('units') and c.get('bounded'):
         cat="other"
     served.append(pid)
